@@ -322,6 +322,14 @@ type newTorrentEvent struct {
 func (e newTorrentEvent) apply(s *state) {
 	ctrl, ok := s.torrentControls[e.torrent.InfoHash()]
 	if ok && ctrl.dispatcher.Complete() && !e.torrent.Complete() {
+		// The torrent was created outside of the event loop, possibly before
+		// the existing dispatcher completed, in which case it is stale rather
+		// than evidence of an eviction. Reload it to tell the two apart.
+		if t, err := s.sched.torrentArchive.GetTorrent(e.namespace, e.torrent.Digest()); err == nil {
+			e.torrent = t
+		}
+	}
+	if ok && ctrl.dispatcher.Complete() && !e.torrent.Complete() {
 		// The scheduler considers the torrent complete, while it is
 		// actually not on disk. This happens when the disk cache
 		// asynchronously evicts the torrent, leaving the scheduler
